@@ -18,6 +18,7 @@ from vlib.common import *
 
 PROP = "C19"
 GSTRIDE = 100000
+LIBNUM = {"lib": 1, "tp": 2, "lib2": 3}
 
 
 # ---------------------------------------------------------------------------------------------------
@@ -100,7 +101,7 @@ def build_case_a(gv, analyzed):
         if evs:
             units.append(" ".join(evs))
     hasprim = 1 if units else 0
-    return "%d,%d,%d,%d/%s/%s" % (1 if gv.lib == "lib" else 2, gv.gidx, 1 if analyzed else 0, hasprim, " ".join(ents), ",".join(units))
+    return "%d,%d,%d,%d/%s/%s" % (LIBNUM[gv.lib], gv.gid, 1 if analyzed else 0, hasprim, " ".join(ents), ",".join(units))
 
 
 def real_groups(real, gviews):
@@ -180,7 +181,7 @@ def build_case_b(gv, units, ents, analyzed, problems):
         pos = "-" if e["pos"] is None else str(n)
         lines[raw] = "%d:%s:%s:%s:%s:%s" % (n, KINDS_EQUIV.get(e["kind"], e["kind"]), par, e["rel"], relto, pos)
     hasprim = 1 if prim else 0
-    return "%d,%d,%d,%d/%s/%s" % (1 if gv.lib == "lib" else 2, gv.gidx, 1 if analyzed else 0, hasprim,
+    return "%d,%d,%d,%d/%s/%s" % (LIBNUM[gv.lib], gv.gid, 1 if analyzed else 0, hasprim,
                                    " ".join(lines[k] for k in sorted(lines, key=lambda x: nums[x])), ",".join(ustr)), nums
 
 
@@ -342,7 +343,7 @@ def parse_model_line(line):
             if not g:
                 continue
             key, wf, ids = g.split(":")
-            groups[int(key.split(",")[1])] = (wf == "1", set(int(x) for x in ids.split()))
+            groups[tuple(int(x) for x in key.split(","))] = (wf == "1", set(int(x) for x in ids.split()))
         steps.append((out, groups))
     return tag, steps
 
@@ -365,7 +366,9 @@ class Capped:
 
 def single_group_project(pj, gidx):
     g = pj["groups"][gidx]
-    return {"id": "r%s" % g["gid"], "groups": [g], "flip": bool(pj.get("flip"))}
+    # a group is replayed together with its same-named twin of the other library
+    gs = [x for x in pj["groups"] if x["gid"] == g["gid"]]
+    return {"id": "r%s" % g["gid"], "groups": gs, "flip": bool(pj.get("flip")), "layered": bool(pj.get("layered"))}
 
 
 # ---------------------------------------------------------------------------------------------------
@@ -390,10 +393,13 @@ def evaluate(res0, tag, projects_path, out_path, mbin, d, stats, open_kf):
                 per = real_groups(st["real"], gviews)
                 ents = st["real"]["ents"]
                 tp = st["tp"]
-                cfg = "%d,%d" % (1 if tp["lib"] else 0, 1 if tp["tp"] else 0)
+                tp.setdefault("lib2", False)
+                last = ",".join("1" if tp[l] else "0" for l in ("lib", "tp", "lib2"))
+                first = ",".join("0" if tp[l] else "1" for l in ("lib", "tp", "lib2"))
+                cfg = first + "+" + last if o.get("layered") else last
                 ga, gb, nums_b, problems = [], [], {}, []
                 for gv in gviews:
-                    sig = json.dumps([gv.files, sorted(gv.by_pos.items())], sort_keys=True, default=str)
+                    sig = json.dumps([gv.files, sorted(gv.by_pos.items()), sorted((r["file"], r["line"], r["col"], r["id"]) for r in gv.refs)], sort_keys=True, default=str)
                     analyzed = st["what"] != "edit" or prev_sig.get(gv.gidx) != sig
                     prev_sig[gv.gidx] = sig
                     ga.append(build_case_a(gv, analyzed))
@@ -483,7 +489,7 @@ def evaluate(res0, tag, projects_path, out_path, mbin, d, stats, open_kf):
                 exp, sites = gv.oracle()
                 got = impl.get(gv.gidx, collections.Counter())
                 case_obj = single_group_project(pj, gv.gidx)
-                canon = json.dumps([case_obj["groups"][0]["files"], st["what"], third])
+                canon = json.dumps([pj["groups"][gv.gidx]["files"], st["what"], third, bool(o.get("layered"))])
                 verdicts = {"reported": len(exp), "used": sum(1 for i, dd in gv.decls.items() if dd["elig"] and i not in exp),
                             "ineligible": sum(1 for dd in gv.decls.values() if not dd["elig"])}
                 res.count_case(canon, verdicts["reported"] > 0 and verdicts["used"] > 0 and verdicts["ineligible"] > 0)
@@ -491,6 +497,10 @@ def evaluate(res0, tag, projects_path, out_path, mbin, d, stats, open_kf):
                     stats["verdict_" + k] += v
                 stats["step_" + st["what"]] += 1
                 stats["third_party_groups" if third else "ordinary_groups"] += 1
+                if o.get("layered"):
+                    stats["groups_under_layered_config"] += 1
+                if o["marks"][gv.gidx].get("lib") == "lib2" or any(m["gid"] == gv.gid and m["lib"] == "lib2" for m in o["marks"]):
+                    stats["groups_with_same_named_twin_in_other_library"] += 1
                 if len(res.samples) < 4 and gv.decls:
                     res.add_sample({"group": gv.gid, "lib": gv.lib, "step": st["what"], "third_party": third,
                                     "declarations": len(gv.decls), "expected_unused": sorted(gv.decls[i]["name"] for i in exp)[:12]})
@@ -546,8 +556,8 @@ def evaluate(res0, tag, projects_path, out_path, mbin, d, stats, open_kf):
                 sc, half = structure_check(gv, per.get(gv.gidx, []), ents, open_sites)
                 for k, v in half.items():
                     stats["ref_resolves_" + k] += v
-                wf_a, un_a = groups_a.get(gv.gidx, (False, set()))
-                wf_b, un_b = groups_b.get(gv.gidx, (False, set()))
+                wf_a, un_a = groups_a.get((LIBNUM[gv.lib], gv.gid), (False, set()))
+                wf_b, un_b = groups_b.get((LIBNUM[gv.lib], gv.gid), (False, set()))
                 exp_nums = set(gv.num(i) for i in exp)
                 got_nums = set(gv.num(i) for i in got)
                 corr = []
